@@ -30,6 +30,7 @@ def module_ast(mod, repo=None):
 def find(qual, repo=None):
     """-> (FunctionDef node, source segment, sha256 of segment, path)"""
     mod, name = qual.split(':')
+    name = name.split('@')[0]   # '@tag' marks a specialised contract of the same function
     src, tree = module_ast(mod, repo)
     parts = name.split('.')
     body = tree.body
